@@ -15,11 +15,14 @@ PROPS = {
     "--bg": (":root", "#fafafa"),
     "--h": ("html", "#8a8a8a"),
     "--ok": (":root", "#111"),
+    "--d": (":root", "#777"),
+    "--e": ("html", "#999"),
 }
 
 
 class Item:
-    def __init__(self, kind, decls, needs=(), selector=None, note=""):
+    def __init__(self, kind, decls, needs=(), selector=None, note="", extra_blocks=()):
+        self.extra_blocks = tuple(extra_blocks)   # raw CSS emitted before the rules (e.g. a second definition of a property)
         self.kind = kind
         self.decls = decls          # [(name, value, important)] or raw strings (junk / comments)
         self.needs = tuple(needs)   # custom properties that must be defined
@@ -50,6 +53,9 @@ KINDS = {
     "var_undefined": lambda: Item("var_undefined", [("color", "var(--nope)", False)]),
     "var_html": lambda: Item("var_html", [("color", "var(--h)", False)], needs=("--h",)),
     "var_readable": lambda: Item("var_readable", [("color", "var(--ok)", False)], needs=("--ok",)),
+    # the same custom property defined in :root and in html: by the cascade :root (a pseudo-class) wins whatever the order
+    "var_both_root_first": lambda: Item("var_both_root_first", [("color", "var(--d)", False)], needs=("--d",), extra_blocks=("html {\n  --d: #999;\n}\n",)),
+    "var_both_html_first": lambda: Item("var_both_html_first", [("color", "var(--e)", False)], needs=("--e",), extra_blocks=(":root {\n  --e: #8a8a8a;\n}\n",)),
     "important": lambda: Item("important", [("color", "#777", True)]),
     "repeated": lambda: Item("repeated", [("color", "#000", False), ("margin", "0", False), ("color", "#777", False)]),
     "repeated_after_bg": lambda: Item("repeated_after_bg", [("color", "#333", False), ("background-color", "#fff", False), ("color", "#999", False)]),
@@ -117,6 +123,10 @@ class Sheet:
             if sel not in fixed:
                 out.append("%s {\n%s\n}\n" % (sel, "\n".join(lines)))
         self.defs = {n: self.props[n] for n in needs}
+        for it in self.items:
+            for blk in it.extra_blocks:
+                if blk not in out:
+                    out.append(blk)
         chunks = []
         for i, (it, (kind, wrapper)) in enumerate(zip(self.items, self.spec)):
             for pos, txt in self.passthrough:
@@ -131,7 +141,12 @@ class Sheet:
         for pos, txt in self.passthrough:
             if pos >= len(self.items):
                 chunks.append(txt if txt.endswith("\n") else txt + "\n")
-        return "".join(out) + "".join(chunks)
+        text = "".join(out) + "".join(chunks)
+        from mc.cli import observe
+
+        # cascade-aware table of the custom properties as CSS resolves them (:root beats html), read with the harness's own tokenizer
+        self.defs_css = observe.output_model(text)[1]
+        return text
 
     def describe(self):
         return {"items": [list(x) for x in self.spec], "passthrough": [list(p) for p in self.passthrough]}
